@@ -3,6 +3,7 @@ package main
 import (
 	"fmt"
 	"go/token"
+	"hash/fnv"
 	"strings"
 
 	"golang.org/x/tools/go/ssa"
@@ -27,6 +28,7 @@ type Path struct {
 	Cut     bool // stopped at a loop back edge
 	CondIns []*ssa.If
 	Mem     map[string]string // address term -> last value stored on this path
+	Aliases map[string]string // abbreviated call term -> full term (alias mode)
 }
 
 func (p *Path) hasCond(pred func(string) bool) bool {
@@ -49,24 +51,74 @@ func (p *Path) String() string {
 	return fmt.Sprintf("[%s] {%s} => %s", strings.Join(p.Conds, " ∧ "), strings.Join(ev, "; "), strings.Join(p.Ret, ", "))
 }
 
+// omap is a persistent map: cloning freezes the current layer and gives each
+// copy a fresh empty layer on top of it.
+type omap[K comparable, V any] struct {
+	m      map[K]V
+	parent *omap[K, V]
+	depth  int
+}
+
+func newOmap[K comparable, V any]() *omap[K, V] { return &omap[K, V]{m: map[K]V{}} }
+
+func (o *omap[K, V]) get(k K) (V, bool) {
+	for x := o; x != nil; x = x.parent {
+		if v, ok := x.m[k]; ok {
+			return v, true
+		}
+	}
+	var z V
+	return z, false
+}
+
+func (o *omap[K, V]) set(k K, v V) { o.m[k] = v }
+
+func (o *omap[K, V]) child() *omap[K, V] {
+	if o.depth > 64 {
+		// flatten long chains
+		flat := map[K]V{}
+		o.each(func(k K, v V) { flat[k] = v })
+		return &omap[K, V]{m: map[K]V{}, parent: &omap[K, V]{m: flat}, depth: 1}
+	}
+	return &omap[K, V]{m: map[K]V{}, parent: o, depth: o.depth + 1}
+}
+
+// each visits every live binding once (inner layers shadow outer ones).
+func (o *omap[K, V]) each(f func(K, V)) {
+	seen := map[K]bool{}
+	for x := o; x != nil; x = x.parent {
+		for k, v := range x.m {
+			if !seen[k] {
+				seen[k] = true
+				f(k, v)
+			}
+		}
+	}
+}
+
+func (o *omap[K, V]) flat() map[K]V {
+	m := map[K]V{}
+	o.each(func(k K, v V) { m[k] = v })
+	return m
+}
+
 type pstate struct {
-	vals   map[ssa.Value]string
-	mem    map[string]string
-	path   Path
-	visits map[*ssa.BasicBlock]int
+	vals      *omap[ssa.Value, string]
+	mem       *omap[string, string]
+	facts     *omap[string, bool] // normalised condition -> outcome on this path
+	tuples    *omap[ssa.Value, []string]
+	deferArgs *omap[*ssa.Defer, []string]
+	path      Path
 }
 
 func (s *pstate) clone() *pstate {
-	n := &pstate{vals: make(map[ssa.Value]string, len(s.vals)), mem: make(map[string]string, len(s.mem)), visits: make(map[*ssa.BasicBlock]int, len(s.visits))}
-	for k, v := range s.vals {
-		n.vals[k] = v
-	}
-	for k, v := range s.mem {
-		n.mem[k] = v
-	}
-	for k, v := range s.visits {
-		n.visits[k] = v
-	}
+	n := &pstate{}
+	ov, om, of, ot, od := s.vals, s.mem, s.facts, s.tuples, s.deferArgs
+	s.vals, n.vals = ov.child(), ov.child()
+	s.mem, n.mem = om.child(), om.child()
+	s.facts, n.facts = of.child(), of.child()
+	s.tuples, n.tuples = ot.child(), ot.child()
+	s.deferArgs, n.deferArgs = od.child(), od.child()
 	n.path = s.path
 	n.path.Conds = append([]string(nil), s.path.Conds...)
 	n.path.Events = append([]Event(nil), s.path.Events...)
@@ -76,7 +128,7 @@ func (s *pstate) clone() *pstate {
 }
 
 func (s *pstate) term(v ssa.Value) string {
-	if t, ok := s.vals[v]; ok {
+	if t, ok := s.vals.get(v); ok {
 		return t
 	}
 	switch v.(type) {
@@ -91,46 +143,232 @@ func (s *pstate) term(v ssa.Value) string {
 // times per path (1 = loop bodies are cut at the back edge). complete is false
 // when more than limit paths exist.
 func enumPaths(fn *ssa.Function, limit, maxVisits int) (paths []Path, complete bool) {
+	return enumPathsInline(fn, limit, maxVisits, nil)
+}
+
+type frame struct {
+	fn      *ssa.Function
+	call    ssa.Value // the call instruction being inlined (nil for the root, or for a deferred call)
+	retB    *ssa.BasicBlock
+	retI    int
+	parent  *frame
+	visits  map[*ssa.BasicBlock]int
+	defers  []*ssa.Defer
+	serial  int
+	after   func(s *pstate) // continuation used for inlined deferred calls
+	out     *[]outcome      // terminal states of an inlined activation
+	evStart int
+}
+
+type outcome struct {
+	s    *pstate
+	rets []string
+}
+
+// InlineOpts configures interprocedural path enumeration.
+type InlineOpts struct {
+	Inline func(*ssa.Function) bool
+	// Relevant selects the facts (normalised conditions) and memory entries that
+	// distinguish outcomes of an inlined callee; outcomes that agree on the
+	// callee's results, on the interesting events it produced and on every
+	// relevant fact are merged (one representative continues in the caller).
+	// nil: never merge.
+	Relevant    func(string) bool
+	Interesting func(Event) bool
+	// Alias abbreviates long call terms as callee‹hash of arguments›; the
+	// table is kept in Path.Aliases.
+	Alias bool
+	// OnCall lets a rule model a call that is not inlined: it may record
+	// memory facts about the result (set(addressTerm, valueTerm)).
+	OnCall func(c *ssa.Call, m *CallModel)
+}
+
+// CallModel is what OnCall may say about a call that is not inlined.
+type CallModel struct {
+	Result string
+	Args   []string
+	s      *pstate
+}
+
+// Set records that the memory at addr holds val after the call.
+func (m *CallModel) Set(addr, val string) { m.s.mem.set(addr, val) }
+
+// Fact records the outcome of a condition (as printed in path conditions).
+func (m *CallModel) Fact(cond string, val bool) {
+	nc, pol := normCond(cond)
+	m.s.facts.set(nc, val == pol)
+}
+
+func (f *frame) onStack(fn *ssa.Function) bool {
+	for x := f; x != nil; x = x.parent {
+		if x.fn == fn {
+			return true
+		}
+	}
+	return false
+}
+
+// enumPathsInline is enumPaths with interprocedural inlining: a call (or a
+// deferred call, when the defers run) whose static callee satisfies inline is
+// walked in the caller's state, parameters bound to the argument terms, so
+// that facts established by the caller are visible in the callee and the
+// callee's results in the caller. Branches whose condition contradicts an
+// earlier outcome on the same path, or is decided by literals, are pruned.
+func enumPathsInline(fn *ssa.Function, limit, maxVisits int, inline func(*ssa.Function) bool) (paths []Path, complete bool) {
+	return enumPathsOpts(fn, limit, maxVisits, InlineOpts{Inline: inline})
+}
+
+func enumPathsOpts(fn *ssa.Function, limit, maxVisits int, opts InlineOpts) (paths []Path, complete bool) {
+	inline := opts.Inline
 	complete = true
-	var walk func(s *pstate, b *ssa.BasicBlock, from *ssa.BasicBlock)
-	walk = func(s *pstate, b *ssa.BasicBlock, from *ssa.BasicBlock) {
+	outcomeKey := func(o outcome, evStart int) string {
+		var b strings.Builder
+		b.WriteString(strings.Join(o.rets, ","))
+		b.WriteString("|")
+		for _, e := range o.s.path.Events[evStart:] {
+			if opts.Interesting != nil && opts.Interesting(e) {
+				b.WriteString(e.Kind + " " + e.Desc + ";")
+			}
+		}
+		b.WriteString("|")
+		var fs []string
+		o.s.facts.each(func(k string, v bool) {
+			if opts.Relevant(k) {
+				fs = append(fs, fmt.Sprintf("%s=%v", k, v))
+			}
+		})
+		o.s.mem.each(func(k, v string) {
+			if opts.Relevant(k) || opts.Relevant(v) {
+				fs = append(fs, k+":="+v)
+			}
+		})
+		sortStrings(fs)
+		b.WriteString(strings.Join(fs, ";"))
+		return b.String()
+	}
+	merge := func(outs []outcome, evStart int) []outcome {
+		if opts.Relevant == nil {
+			return outs
+		}
+		seen := map[string]bool{}
+		var res []outcome
+		for _, o := range outs {
+			k := outcomeKey(o, evStart)
+			if !seen[k] {
+				seen[k] = true
+				res = append(res, o)
+			}
+		}
+		return res
+	}
+	serial := 0
+	var run func(s *pstate, b *ssa.BasicBlock, from *ssa.BasicBlock, start int, fr *frame)
+
+	finish := func(s *pstate, exit ssa.Instruction, ret []string) {
+		s.path.Ret = ret
+		s.path.Exit = exit
+		s.path.Mem = s.mem.flat()
+		paths = append(paths, s.path)
+		if len(paths) > limit {
+			complete = false
+		}
+	}
+	// leave returns from an inlined frame (or finishes the path at the root)
+	leave := func(s *pstate, fr *frame, exit ssa.Instruction, rets []string) {
+		if fr.parent == nil && fr.after == nil {
+			finish(s, exit, rets)
+			return
+		}
+		*fr.out = append(*fr.out, outcome{s, rets})
+	}
+	_ = merge
+	enter := func(s *pstate, callee *ssa.Function, args []string, bindings []string, fr *frame) *frame {
+		serial++
+		nf := &frame{fn: callee, parent: fr, visits: map[*ssa.BasicBlock]int{}, serial: serial, out: new([]outcome), evStart: len(s.path.Events)}
+		for i, p := range callee.Params {
+			if i < len(args) {
+				s.vals.set(p, args[i])
+			}
+		}
+		for i, fv := range callee.FreeVars {
+			if i < len(bindings) {
+				s.vals.set(fv, bindings[i])
+			}
+		}
+		return nf
+	}
+	calleeOf := func(s *pstate, c *ssa.CallCommon) (*ssa.Function, []string) {
+		if inline == nil || c.IsInvoke() {
+			return nil, nil
+		}
+		switch v := c.Value.(type) {
+		case *ssa.Function:
+			if len(v.Blocks) > 0 && inline(v) {
+				return v, nil
+			}
+		case *ssa.MakeClosure:
+			f := v.Fn.(*ssa.Function)
+			if len(f.Blocks) > 0 && inline(f) {
+				var b []string
+				for _, x := range v.Bindings {
+					b = append(b, s.term(x))
+				}
+				return f, b
+			}
+		}
+		return nil, nil
+	}
+
+	run = func(s *pstate, b *ssa.BasicBlock, from *ssa.BasicBlock, start int, fr *frame) {
 		if !complete {
 			return
 		}
-		if s.visits[b] >= maxVisits {
-			s.path.Cut = true
-			s.path.Mem = s.mem
-			paths = append(paths, s.path)
-			return
-		}
-		s.visits[b]++
-		s.path.Blocks = append(s.path.Blocks, b.Index)
-		// phis are evaluated simultaneously
-		var phiVals []string
-		var phis []*ssa.Phi
-		for _, ins := range b.Instrs {
-			phi, ok := ins.(*ssa.Phi)
-			if !ok {
-				break
+		if start == 0 {
+			if fr.visits[b] >= maxVisits {
+				s.path.Cut = true
+				finish(s, nil, nil)
+				return
 			}
-			idx := 0
-			for i, p := range b.Preds {
-				if p == from {
-					idx = i
+			// frames are shared between sibling paths: copy on write
+			nv := make(map[*ssa.BasicBlock]int, len(fr.visits)+1)
+			for k, v := range fr.visits {
+				nv[k] = v
+			}
+			nv[b]++
+			nfr := *fr
+			nfr.visits = nv
+			fr = &nfr
+			if fr.parent == nil {
+				s.path.Blocks = append(s.path.Blocks, b.Index)
+			}
+			var phiVals []string
+			var phis []*ssa.Phi
+			for _, ins := range b.Instrs {
+				phi, ok := ins.(*ssa.Phi)
+				if !ok {
+					break
 				}
+				idx := 0
+				for i, p := range b.Preds {
+					if p == from {
+						idx = i
+					}
+				}
+				phis = append(phis, phi)
+				phiVals = append(phiVals, s.term(phi.Edges[idx]))
 			}
-			phis = append(phis, phi)
-			phiVals = append(phiVals, s.term(phi.Edges[idx]))
+			for i, phi := range phis {
+				s.vals.set(phi, phiVals[i])
+			}
+			start = len(phis)
 		}
-		for i, phi := range phis {
-			s.vals[phi] = phiVals[i]
-		}
-		for _, ins := range b.Instrs[len(phis):] {
+		for i := start; i < len(b.Instrs); i++ {
+			ins := b.Instrs[i]
 			switch x := ins.(type) {
 			case *ssa.DebugRef:
 			case *ssa.Store:
 				k, v := s.term(x.Addr), s.term(x.Val)
-				s.mem[k] = v
+				s.mem.set(k, v)
 				s.path.Events = append(s.path.Events, Event{"store", k + " := " + v, ins})
 			case *ssa.MapUpdate:
 				s.path.Events = append(s.path.Events, Event{"mapupdate", s.term(x.Map) + "[" + s.term(x.Key) + "] = " + s.term(x.Value), ins})
@@ -140,61 +378,153 @@ func enumPaths(fn *ssa.Function, limit, maxVisits int) (paths []Path, complete b
 				s.path.Events = append(s.path.Events, Event{"go", describeCall(x.Common(), s.term), ins})
 			case *ssa.Defer:
 				s.path.Events = append(s.path.Events, Event{"defer", describeCall(x.Common(), s.term), ins})
+				// remember argument terms now (defer evaluates them here)
+				nfr := *fr
+				nfr.defers = append(append([]*ssa.Defer(nil), fr.defers...), x)
+				fr = &nfr
+				var at []string
+				for _, a := range callArgs(x.Common()) {
+					at = append(at, s.term(a))
+				}
+				s.deferArgs.set(x, at)
 			case *ssa.RunDefers:
 				s.path.Events = append(s.path.Events, Event{"rundefers", "", ins})
+				// run the deferred calls LIFO; inlined ones are walked, the others recorded as calls
+				defs := fr.defers
+				var next func(s *pstate, k int)
+				cont := func(s *pstate) { run(s, b, nil, i+1, fr) }
+				next = func(s *pstate, k int) {
+					if k < 0 {
+						cont(s)
+						return
+					}
+					d := defs[k]
+					callee, binds := calleeOf(s, d.Common())
+					if callee != nil && !fr.onStack(callee) {
+						nf := enter(s, callee, deferArgsOf(s, d), binds, fr)
+						nf.after = func(*pstate) {}
+						run(s, callee.Blocks[0], nil, 0, nf)
+						for _, o := range merge(*nf.out, nf.evStart) {
+							next(o.s, k-1)
+						}
+						return
+					}
+					s.path.Events = append(s.path.Events, Event{"call", "deferred " + describeCall(d.Common(), s.term), d})
+					next(s, k-1)
+				}
+				next(s, len(defs)-1)
+				return
 			case *ssa.Call:
+				callee, binds := calleeOf(s, x.Common())
+				if callee != nil && !fr.onStack(callee) {
+					var at []string
+					for _, a := range callArgs(x.Common()) {
+						at = append(at, s.term(a))
+					}
+					s.path.Events = append(s.path.Events, Event{"enter", fname(callee), ins})
+					nf := enter(s, callee, at, binds, fr)
+					nf.call, nf.retB, nf.retI = x, b, i+1
+					run(s, callee.Blocks[0], nil, 0, nf)
+					for _, o := range merge(*nf.out, nf.evStart) {
+						if len(o.rets) == 1 {
+							o.s.vals.set(x, o.rets[0])
+						} else {
+							o.s.vals.set(x, "("+strings.Join(o.rets, ", ")+")")
+							o.s.tuples.set(x, o.rets)
+						}
+						run(o.s, b, nil, i+1, fr)
+					}
+					return
+				}
 				t := describeCall(x.Common(), s.term)
-				s.vals[x] = t
+				if opts.Alias && len(t) > 70 {
+					h := fnv.New32a()
+					h.Write([]byte(t))
+					a := fmt.Sprintf("%s‹%04x›", shortName(calleeName(x.Common())), h.Sum32()&0xffff)
+					if s.path.Aliases == nil {
+						s.path.Aliases = map[string]string{}
+					} else if _, ok := s.path.Aliases[a]; !ok {
+						na := make(map[string]string, len(s.path.Aliases)+1)
+						for k, v := range s.path.Aliases {
+							na[k] = v
+						}
+						s.path.Aliases = na
+					}
+					s.path.Aliases[a] = t
+					t = a
+				}
+				s.vals.set(x, t)
 				s.path.Events = append(s.path.Events, Event{"call", t, ins})
+				if opts.OnCall != nil {
+					var at []string
+					for _, a := range callArgs(x.Common()) {
+						at = append(at, s.term(a))
+					}
+					opts.OnCall(x, &CallModel{Result: t, Args: at, s: s})
+				}
+			case *ssa.Extract:
+				if tup, ok := s.tuples.get(x.Tuple); ok && x.Index < len(tup) {
+					s.vals.set(x, tup[x.Index])
+				} else {
+					s.vals.set(x, describeShallow(x, s.term))
+				}
 			case *ssa.UnOp:
 				if x.Op == token.MUL {
 					k := s.term(x.X)
-					if m, ok := s.mem[k]; ok {
-						s.vals[x] = m
+					if m, ok := s.mem.get(k); ok {
+						s.vals.set(x, m)
 					} else {
-						s.vals[x] = k
+						s.vals.set(x, k)
 					}
 				} else {
-					s.vals[x] = describeShallow(x, s.term)
+					s.vals.set(x, describeShallow(x, s.term))
 				}
 			case *ssa.Alloc:
-				s.vals[x] = "local:" + x.Comment
+				nm := "local:" + x.Comment
 				if x.Comment == "" || x.Heap && strings.HasPrefix(x.Comment, "new") || x.Comment == "complit" || x.Comment == "varargs" || x.Comment == "slicelit" {
-					s.vals[x] = fmt.Sprintf("local:%s#%s", x.Comment, x.Name())
+					nm = fmt.Sprintf("local:%s#%s", x.Comment, x.Name())
 				}
+				if fr.parent != nil || fr.after != nil {
+					nm += fmt.Sprintf("@%d", fr.serial)
+				}
+				s.vals.set(x, nm)
 			case *ssa.Return:
+				var rets []string
 				for _, r := range x.Results {
-					s.path.Ret = append(s.path.Ret, s.term(r))
+					rets = append(rets, s.term(r))
 				}
-				s.path.Exit = x
-				s.path.Mem = s.mem
-				paths = append(paths, s.path)
-				if len(paths) > limit {
-					complete = false
-				}
+				leave(s, fr, x, rets)
 				return
 			case *ssa.Panic:
 				s.path.Ret = []string{"<panic " + s.term(x.X) + ">"}
 				s.path.Exit = x
-				s.path.Mem = s.mem
+				s.path.Mem = s.mem.flat()
 				paths = append(paths, s.path)
 				return
 			case *ssa.Jump:
-				walk(s, b.Succs[0], b)
+				run(s, b.Succs[0], b, 0, fr)
 				return
 			case *ssa.If:
 				c := s.term(x.Cond)
-				cv, cok := constCond(c)
-				for i, succ := range b.Succs {
-					if cok && cv != (i == 0) {
-						continue // branch decided by two literals: the other edge is infeasible
+				nc, pol := normCond(c)
+				cv, cok := constCond(nc)
+				if !cok {
+					if known, ok := s.facts.get(nc); ok {
+						cv, cok = known, true
+					}
+				}
+				for k, succ := range b.Succs {
+					want := (k == 0) == pol // value nc must have for this edge
+					if cok && cv != want {
+						continue
 					}
 					ns := s
-					if i == 0 {
+					if k == 0 {
 						ns = s.clone()
 					}
+					ns.facts.set(nc, want)
 					cc := c
-					if i == 1 {
+					if k == 1 {
 						cc = "!" + c
 					}
 					for strings.HasPrefix(cc, "!!") {
@@ -202,19 +532,53 @@ func enumPaths(fn *ssa.Function, limit, maxVisits int) (paths []Path, complete b
 					}
 					ns.path.Conds = append(ns.path.Conds, cc)
 					ns.path.CondIns = append(ns.path.CondIns, x)
-					walk(ns, succ, b)
+					run(ns, succ, b, 0, fr)
 				}
 				return
 			default:
 				if v, ok := ins.(ssa.Value); ok {
-					s.vals[v] = describeShallow(v, s.term)
+					s.vals.set(v, describeShallow(v, s.term))
 				}
 			}
 		}
 	}
-	s := &pstate{vals: map[ssa.Value]string{}, mem: map[string]string{}, visits: map[*ssa.BasicBlock]int{}}
-	walk(s, fn.Blocks[0], nil)
+	s := &pstate{vals: newOmap[ssa.Value, string](), mem: newOmap[string, string](), facts: newOmap[string, bool](), tuples: newOmap[ssa.Value, []string](), deferArgs: newOmap[*ssa.Defer, []string]()}
+	run(s, fn.Blocks[0], nil, 0, &frame{fn: fn, visits: map[*ssa.BasicBlock]int{}})
 	return paths, complete
+}
+
+// normCond strips negations and rewrites (A != B) as the negation of (A == B);
+// it returns the positive atom and the polarity the original string asserts.
+func normCond(c string) (string, bool) {
+	pol := true
+	for strings.HasPrefix(c, "!") {
+		c = c[1:]
+		pol = !pol
+	}
+	if strings.HasPrefix(c, "(") && strings.HasSuffix(c, ")") {
+		// find the top-level operator
+		depth := 0
+		inStr := false
+		for i := 1; i < len(c)-1; i++ {
+			ch := c[i]
+			if ch == '"' && c[i-1] != '\\' {
+				inStr = !inStr
+			}
+			if inStr {
+				continue
+			}
+			switch ch {
+			case '(', '[':
+				depth++
+			case ')', ']':
+				depth--
+			}
+			if depth == 0 && strings.HasPrefix(c[i:], " != ") {
+				return c[:i] + " == " + c[i+4:], !pol
+			}
+		}
+	}
+	return c, pol
 }
 
 func dumpPaths(P *Program, spec string) {
@@ -460,12 +824,28 @@ func (p *Path) eventIndex(from int, kind string, pred func(string) bool) int {
 	return -1
 }
 
-func eq(s string) func(string) bool      { return func(x string) bool { return x == s } }
-func prefix(s string) func(string) bool  { return func(x string) bool { return strings.HasPrefix(x, s) } }
-func contains(s string) func(string) bool { return func(x string) bool { return strings.Contains(x, s) } }
+func eq(s string) func(string) bool { return func(x string) bool { return x == s } }
+func prefix(s string) func(string) bool {
+	return func(x string) bool { return strings.HasPrefix(x, s) }
+}
+func contains(s string) func(string) bool {
+	return func(x string) bool { return strings.Contains(x, s) }
+}
 
 // constCond evaluates a comparison of two integer literals ("(32 == 0)").
 func constCond(c string) (bool, bool) {
+	if c == "true" {
+		return true, true
+	}
+	if c == "false" {
+		return false, true
+	}
+	if strings.HasSuffix(c, " == nil)") && strings.HasPrefix(c, "(") {
+		t := c[1 : len(c)-len(" == nil)")]
+		if nonNilTerm(t) {
+			return false, true
+		}
+	}
 	switch {
 	case c == "(nil == nil)":
 		return true, true
@@ -476,13 +856,23 @@ func constCond(c string) (bool, bool) {
 	case strings.HasPrefix(c, "(make(") && strings.HasSuffix(c, ") != nil)") && balanced(c[1:len(c)-len(" != nil)")]):
 		return true, true
 	}
-	var a, b int64
-	var op string
-	if n, _ := fmt.Sscanf(c, "(%d %s %d)", &a, &op, &b); n != 3 {
+	// comparison of two integer expressions made of literals
+	l, op, rgt, ok := splitTop(c)
+	if !ok {
 		return false, false
 	}
-	op = strings.TrimSuffix(op, ")")
-	if !strings.HasSuffix(c, fmt.Sprintf(" %d)", b)) || !strings.HasPrefix(c, fmt.Sprintf("(%d ", a)) {
+	if l == rgt && !strings.Contains(l, "(") {
+		// the same global / parameter / field path on both sides
+		switch op {
+		case "==":
+			return true, true
+		case "!=":
+			return false, true
+		}
+	}
+	a, ok1 := evalInt(l)
+	b, ok2 := evalInt(rgt)
+	if !ok1 || !ok2 {
 		return false, false
 	}
 	switch op {
@@ -517,4 +907,90 @@ func balanced(s string) bool {
 		}
 	}
 	return depth == 0
+}
+
+// nonNilTerm recognises terms that are never nil: package-level sentinel
+// errors (err*/Err* globals) and freshly constructed errors.
+func nonNilTerm(t string) bool {
+	if strings.HasPrefix(t, "fmt.Errorf(") || strings.HasPrefix(t, "errors.New(") {
+		return balanced(t)
+	}
+	if strings.ContainsAny(t, " ()[]#") {
+		return false
+	}
+	i := strings.LastIndex(t, ".")
+	if i < 0 {
+		return false
+	}
+	n := t[i+1:]
+	return strings.HasPrefix(n, "err") || strings.HasPrefix(n, "Err")
+}
+
+func deferArgsOf(s *pstate, d *ssa.Defer) []string {
+	a, _ := s.deferArgs.get(d)
+	return a
+}
+
+// splitTop splits "(L op R)" at its top-level binary operator.
+func splitTop(c string) (l, op, r string, ok bool) {
+	if !strings.HasPrefix(c, "(") || !strings.HasSuffix(c, ")") {
+		return
+	}
+	depth, inStr := 0, false
+	for i := 1; i < len(c)-1; i++ {
+		ch := c[i]
+		if ch == '"' && c[i-1] != '\\' {
+			inStr = !inStr
+		}
+		if inStr {
+			continue
+		}
+		switch ch {
+		case '(', '[':
+			depth++
+		case ')', ']':
+			depth--
+		case ' ':
+			if depth == 0 {
+				rest := c[i+1:]
+				j := strings.IndexByte(rest, ' ')
+				if j <= 0 {
+					return
+				}
+				return c[1:i], rest[:j], rest[j+1 : len(rest)-1], true
+			}
+		}
+	}
+	return
+}
+
+// evalInt evaluates an integer literal or a parenthesised + - * / expression over literals.
+func evalInt(t string) (int64, bool) {
+	var v int64
+	if _, err := fmt.Sscanf(t, "%d", &v); err == nil && fmt.Sprint(v) == t {
+		return v, true
+	}
+	l, op, r, ok := splitTop(t)
+	if !ok {
+		return 0, false
+	}
+	a, ok1 := evalInt(l)
+	b, ok2 := evalInt(r)
+	if !ok1 || !ok2 {
+		return 0, false
+	}
+	switch op {
+	case "+":
+		return a + b, true
+	case "-":
+		return a - b, true
+	case "*":
+		return a * b, true
+	case "/":
+		if b == 0 {
+			return 0, false
+		}
+		return a / b, true
+	}
+	return 0, false
 }
